@@ -277,6 +277,11 @@ package trend
 //@ ensures[C04] forall kk :: 0 <= kk && kk < len(result0) ==> hor(result0, kk) <= hor(closings, kk + (e.IdlePeriod()))
 //@ ensures[C04] forall kk :: 0 <= kk && kk < len(result1) ==> hor(result1, kk) <= hor(closings, kk + (e.IdlePeriod()))
 //@ ensures[C04] forall kk :: 0 <= kk && kk < len(result2) ==> hor(result2, kk) <= hor(closings, kk + (e.IdlePeriod()))
+//@ import "positivity", "sma-value", "ema-value"
+//@ ensures[C01] "bands" forall k :: 0 <= k && k < len(result1) ==> result0[k] == result1[k] * (1 + e.Percentage / 100) && result2[k] == result1[k] * (1 - e.Percentage / 100)
+//@ ensures[C01] "middle-sma" istype(e.Ma, "trend.Sma") ==> (forall k :: 0 <= k && k < len(result1) ==> result1[k] == smaS(closings, as(e.Ma, "trend.Sma").Period)[k])
+//@ ensures[C01] "middle-ema" istype(e.Ma, "trend.Ema") ==> (forall k :: 0 <= k && k < len(result1) ==> result1[k] == emaS(closings, as(e.Ma, "trend.Ema").Period, as(e.Ma, "trend.Ema").Smoothing / (as(e.Ma, "trend.Ema").Period + 1), k))
+//@ ensures[C15] "ordered" posma(e.Ma) && e.Percentage >= 0 && (forall j :: 0 <= j && j < len(closings) ==> closings[j] >= 0) ==> (forall k :: 0 <= k && k < len(result1) ==> result0[k] >= result1[k] && result1[k] >= result2[k])
 
 //@ func Kdj.Compute
 //@ requires kdj.MovingMax.Period >= 1 && kdj.MovingMin.Period == kdj.MovingMax.Period && kdj.Sma1.Period >= 1 && kdj.Sma2.Period >= 1 && consumed(high) == 0 && consumed(low) == 0 && consumed(closing) == 0 && len(high) == len(low) && len(high) == len(closing)
